@@ -149,6 +149,10 @@ Step ==
      \/ /\ e.k = "deq"
         /\ IF DeqV(e)[1] = "ok" THEN Deq(e.n) /\ verdict' = verdict
            ELSE UNCHANGED vars /\ verdict' = DeqV(e)
+     \/ /\ e.k = "crash" /\ UNCHANGED vars
+        /\ verdict' = IF e.what = "livelock" THEN <<"C05.RouterForwards", "the network never becomes quiet: a frame is passed along for ever">>
+                      ELSE IF e.what = "hang" THEN <<"C13.Bounded", "a call on node " \o ToString(e.n) \o " never returned">>
+                      ELSE <<"C15.NoRaise", "node " \o ToString(e.n) \o " raised " \o e.what>>
      \/ /\ e.k = "inject"          \* environment: a frame sent by a neighbour outside the modelled tree enters a radio
         /\ IF Len(rx[e.m]) < FIFO
            THEN /\ rx' = [rx EXCEPT ![e.m] = Append(@, Fr(e.f))] /\ heard' = heard \cup {<<e.m, Fr(e.f)>>}
